@@ -1,5 +1,5 @@
 \* spec mutation (W_PinAll = FALSE): TLC must violate Inv_C17_PinnedToHeldIds
-CONSTANTS NPods = 1  PodArchs = {1}  Layouts = {1}  Caps = {1}  PoolSets = {4}  Modes = {"strict"}
+CONSTANTS NPods = 1  PodArchs = {1}  Layouts = {1}  Caps = {1}  PoolSets = {4}  Modes = {"strict"}  GenMod = 1  GenRes = 0
 CONSTANTS W_CanReserve = TRUE  W_Release = TRUE  W_PinAll = FALSE  W_Strict = TRUE  W_KeepHeld = TRUE  W_PoolOrder = TRUE
 SPECIFICATION Spec
 INVARIANTS Inv_C17_ReservationCapacity Inv_C17_ManagerConsistent Inv_C17_PinnedToHeldIds Inv_C17_EveryResolutionWithinCapacity Inv_C17_StrictNoFallback Inv_C17_StrictClaim Inv_C17_NoPoolFallback Inv_C17_DeferJustified
